@@ -61,6 +61,10 @@ def _norm(word):
             if kind == "L" and pk == "L" and pa == args and t != pt:
                 out.pop()
                 continue
+            # X . X^-1 = X^-1 . X = I  (kind 'GI' is the inverse of generator 'G' with the same arguments)
+            if {kind, pk} == {"G", "GI"} and pa == args and t == pt:
+                out.pop()
+                continue
         out.append(a)
     res = tuple(out)
     return res if res == tuple(word) else _norm(res)
@@ -106,6 +110,13 @@ class AMat:
     @property
     def T(self):
         return AMat([(k, a, not t) for (k, a, t) in reversed(self.w)])
+
+    def inv(self):
+        """inverse of a product of invertible generators: (AB)^-1 = B^-1 A^-1, (A^T)^-1 = (A^-1)^T"""
+        flip = {"G": "GI", "GI": "G"}
+        if any(k not in flip for k, a, t in self.w):
+            raise sym.EngineLimit("inverse of a non-generator abstract matrix")
+        return AMat([(flip[k], a, t) for (k, a, t) in reversed(self.w)])
 
     def same(self, o):
         return self.w == AMat.of(o).w
